@@ -543,7 +543,26 @@ func permutations(c *core.Ctx, cf cfg, r *core.Rng) {
 func deepHistory(k int, data []gen.DataSpec) *hist.History {
 	depth := 26 + 2*(k%3)
 	var text string
-	switch k % 4 {
+	cyc := false
+	switch k % 8 {
+	case 4:
+		// deeper than any goroutine stack should be asked to follow
+		text = strings.Repeat("{{if $.C0}}", 300000) + "x" + strings.Repeat("{{end}}", 300000)
+	case 5:
+		// much text inside nested loops
+		text = strings.Repeat("{{range $.NOPE}}", 18) + strings.Repeat("<b>text</b> ", 1400) + strings.Repeat("{{end}}", 18)
+	case 6:
+		// a long chain of templates that call each other
+		var b strings.Builder
+		for i := 0; i < 2000; i++ {
+			fmt.Fprintf(&b, `{{define "c%d"}}a{{template "c%d" .}}{{end}}`, i, i+1)
+		}
+		b.WriteString(`{{define "c2000"}}z{{end}}{{template "c0" .}}`)
+		text = b.String()
+	case 7:
+		// data that points to itself, in several contexts
+		text = `<p>{{.}}</p><p title="{{.}}">x</p><a href="/x?q={{.}}">y</a><a href="{{.}}">z</a>`
+		cyc = true
 	case 3:
 		// nested loops around a call of an already analysed helper
 		depth = 40
@@ -570,6 +589,9 @@ func deepHistory(k int, data []gen.DataSpec) *hist.History {
 	}
 	h := &hist.History{Data: []gen.DataSpec{d0}, NVar: 2}
 	h.Ops = []hist.Op{{Kind: "new", H: -1, Dst: 0, Name: "root"}, {Kind: "parse", H: 0, Dst: 0, Text: text}, {Kind: "exec", H: 0, Dst: -1, Data: 0}, {Kind: "exec", H: 0, Dst: -1, Data: 0}}
+	if cyc {
+		h.Ops[2].Kind, h.Ops[3].Kind = "execcyc", "execcyc"
+	}
 	return h
 }
 
@@ -664,7 +686,7 @@ func run(c *core.Ctx, cf cfg) {
 	if cf.total {
 		// deeply nested and chained templates: the analysis treats loop bodies and recursive
 		// templates twice, which may not take 2^depth steps (shards share the shapes)
-		deep = 8
+		deep = 16
 	}
 	for i := 0; i < n+deep; i++ {
 		h, set := hist.Gen(r, cf.gopts(r, i))
